@@ -130,11 +130,12 @@ BOUNDS = {
     "(2 bases per mask, all 10 over 5 consecutive masks of a class); 20 + 2 min(8, nb) menu points, data grid + (menu + nb + 2) "
     "mesh vertices, 2 direct + 4 mesh entry-point calls. "
     "The full product is in the thorough tier",
-    "thorough": "FULL product masks x sub-size maps x all 20 float transforms (10 earlier + 10 many-to-one), no rotation: "
-    "quick's masks + all masks of the 2x5, 5x2, 2x6, 6x2, 3x4, 4x3 frames x 5 sub-size maps + all 65 535 masks of the "
-    "4x4 frame x 2 sub-size maps (uniform 2, per-pixel A) + all 65 535 masks of the 4x4 interior of a 6x6 frame x uniform "
-    "1; x 20 source-plane transforms + 1 integer-dtype source plane + 10 in-box source planes (every base transform; "
-    "bases shear and blow-up through every mesh entry point of Rectangular, Delaunay and Voronoi)",
+    "thorough": "FULL product masks x sub-size maps x all 20 float transforms (10 earlier + 10 many-to-one) + 1 integer-dtype "
+    "source plane + 10 in-box source planes (bases shear and blow-up through every mesh entry point of Rectangular, Delaunay and "
+    "Voronoi), no rotation, on: quick's masks + all masks of the 2x5, 5x2, 2x6, 6x2, 3x4, 4x3 frames x 5 sub-size maps; and with "
+    "the menu rotating from mask to mask as in quick (4 fixed + 4 or 3 rotating + 2 or 3 many-to-one + 1 in-box per case) on all "
+    "65 535 masks of the 4x4 frame x 2 sub-size maps (uniform 2, per-pixel A) and all 65 535 masks of the 4x4 interior of a "
+    "6x6 frame x uniform 1",
 }
 
 SUBMAPS = ["u1", "u2", "u3", "pA", "pB"]
@@ -226,11 +227,13 @@ def cases(tier, seed):
             for j, sm in enumerate(sms):
                 yield ["m", h, w, bits, sm] + tail + [plan(tier, rank, j, len(sms))]
     if tier == "thorough":
+        # the two 2^16 families rotate the transform menu from mask to mask as the quick tier does (every transform meets
+        # every run of 5-10 consecutive masks); the full product on them alone costs more than two hours of 16 cores
         for bits in range(1, 2 ** 16):
-            yield ["i", 6, 6, 4, 4, bits, "u1"] + tail + ["*"]
+            yield ["i", 6, 6, 4, 4, bits, "u1"] + tail + [plan("rotate", bits, bits % 5, 5)]
         for bits in range(2 ** 16 - 1):
-            for sm in ("u2", "pA"):
-                yield ["m", 4, 4, bits, sm] + tail + ["*"]
+            for j, sm in enumerate(("u2", "pA")):
+                yield ["m", 4, 4, bits, sm] + tail + [plan("rotate", bits, j, 2)]
 
 
 def plan_of(case):
